@@ -350,7 +350,7 @@ def r4_r5_derived(chk):
         maps = {nm for nm, vals in asg.items() if len(vals) == 1 and isinstance(vals[0], (ast.Call, ast.DictComp))
                 and f"{res}.atoms" in norm(vals[0]) and ("zip" in norm(vals[0]) or isinstance(vals[0], ast.DictComp))}
         for c in apps:
-            a0 = env.expand(c.args[0], keep=maps | {res})
+            a0 = env.expand(c.args[0], keep=maps | {res}, at=c)
             fresh = isinstance(a0, ast.Call) and (call_name(a0) == "Bond" or (isinstance(a0.func, ast.Attribute) and a0.func.attr == "evolve"))
             ends_ok = True
             if fresh and isinstance(a0.func, ast.Attribute) and a0.func.attr == "evolve":
